@@ -12,9 +12,9 @@ use crate::util::phys::{PhysAddr, PhysLayer};
 use crate::verif::engine::*;
 use crate::verif::io::pipe;
 use crate::verif::props::c06::pseudo_bytes;
-use crate::verif::rig::exec::block_on_ready;
+use crate::verif::rig::exec::{block_on_ready, poll_once};
 use crate::verif::wire::link as rl;
-use crate::verif::wire::transport::{expected_fragments, segment, Segment};
+use crate::verif::wire::transport::{expected_fragments, expected_fragments_ex, segment, Segment};
 use proptest::prelude::*;
 use serde::{Deserialize, Serialize};
 
@@ -90,6 +90,92 @@ pub fn lib_read(
                         out.push((f.info.addr.link.raw_value(), f.data.to_vec()));
                     }
                 }
+                if out.len() > limit {
+                    panic!("verif/harness: runaway fragment count");
+                }
+            }
+        }
+    }
+}
+
+/// one piece of input for `lib_read_ex`: the octets of one read (stream) or one datagram, and the peer it comes from
+pub struct Piece {
+    pub data: Vec<u8>,
+    pub peer: Option<u8>,
+}
+
+/// the outstation-side transport reader over pieces that arrive one at a time; after the pieces listed in
+/// `interrupt_after` the pending `read` future is dropped and `pop()` is called, as the outstation session does when a
+/// database change or a timer wakes it up in the middle of a fragment. Returns (source, broadcast address, bytes).
+pub fn lib_read_ex(
+    datagram: bool,
+    local: u16,
+    rx_buffer: usize,
+    pieces: &[Piece],
+    interrupt_after: &[usize],
+    limit: usize,
+) -> (Vec<(u16, Option<u16>, Vec<u8>)>, LinkError) {
+    use crate::link::header::BroadcastConfirmMode;
+    use crate::link::LinkReadMode;
+    let (io, mut peer) = pipe(datagram);
+    let mut phys = PhysLayer::Verif(io);
+    let modes = LinkModes {
+        error_mode: LinkErrorMode::Discard,
+        read_mode: if datagram {
+            LinkReadMode::Datagram
+        } else {
+            LinkReadMode::Stream
+        },
+    };
+    let mut r = Reader::outstation(
+        modes,
+        EndpointAddress::raw(local),
+        Feature::Disabled,
+        rx_buffer,
+    );
+    let mut out = vec![];
+    fn drain(r: &mut Reader, out: &mut Vec<(u16, Option<u16>, Vec<u8>)>) {
+        while let Some(d) = r.pop() {
+            if let TransportData::Fragment(f) = d {
+                let b = f.info.broadcast.map(|m| match m {
+                    BroadcastConfirmMode::Optional => 0xFFFFu16,
+                    BroadcastConfirmMode::Mandatory => 0xFFFE,
+                    BroadcastConfirmMode::NotRequired => 0xFFFD,
+                });
+                out.push((f.info.addr.link.raw_value(), b, f.data.to_vec()));
+            }
+        }
+    }
+    for (i, p) in pieces.iter().enumerate() {
+        match p.peer {
+            Some(n) => peer.send_from(&p.data, n),
+            None => peer.send(&p.data),
+        };
+        if interrupt_after.contains(&i) {
+            // consume what is there; the future is dropped as soon as it would have to wait
+            loop {
+                match poll_once(r.read(&mut phys, DecodeLevel::nothing())) {
+                    Some(Ok(())) => {
+                        drain(&mut r, &mut out);
+                        if out.len() > limit {
+                            panic!("verif/harness: runaway fragment count");
+                        }
+                    }
+                    Some(Err(e)) => return (out, e),
+                    None => {
+                        drain(&mut r, &mut out); // a pop() that finds nothing
+                        break;
+                    }
+                }
+            }
+        }
+    }
+    peer.close();
+    loop {
+        match block_on_ready(r.read(&mut phys, DecodeLevel::nothing())) {
+            Err(e) => return (out, e),
+            Ok(()) => {
+                drain(&mut r, &mut out);
                 if out.len() > limit {
                     panic!("verif/harness: runaway fragment count");
                 }
@@ -297,6 +383,10 @@ pub enum Mutation {
     Seq(u16, u8),
     /// insert a link data frame with an empty payload (no transport header) before segment i
     EmptyFrame(u16),
+    /// the frame that carries segment i is addressed to a broadcast address (0xFFFF, 0xFFFE, 0xFFFD)
+    Broadcast(u16, u8),
+    /// datagram transport only: segment i arrives from another socket address (same link address)
+    Peer(u16),
 }
 
 #[derive(Clone, Debug, Serialize, Deserialize)]
@@ -309,6 +399,13 @@ pub struct Case {
     pub interleave: bool,
     pub mutations: Vec<Mutation>,
     pub chunk: u16,
+    /// datagram transport (UDP): whole link frames per datagram, 1 + chunk % 3 of them where the read buffer allows,
+    /// every datagram from the socket address of its sender
+    #[serde(default)]
+    pub datagram: bool,
+    /// pieces (scaled index) after which the reader's `read` is abandoned and `pop()` called before input goes on
+    #[serde(default)]
+    pub interrupts: Vec<u16>,
 }
 
 fn idx(i: u16, len: usize) -> usize {
@@ -353,6 +450,8 @@ impl Prop for Mutated {
             any::<u16>().prop_map(Mutation::ToggleFin),
             (any::<u16>(), any::<u8>()).prop_map(|(i, s)| Mutation::Seq(i, s)),
             any::<u16>().prop_map(Mutation::EmptyFrame),
+            (any::<u16>(), 0u8..3).prop_map(|(i, k)| Mutation::Broadcast(i, k)),
+            any::<u16>().prop_map(Mutation::Peer),
         ];
         (
             prop_oneof![
@@ -367,15 +466,19 @@ impl Prop for Mutated {
             prop_oneof![3 => Just(false), 1 => Just(true)],
             proptest::collection::vec(mutation, 0..=3),
             prop_oneof![Just(0u16), 1u16..600],
+            prop_oneof![3 => Just(false), 1 => Just(true)],
+            prop_oneof![2 => Just(vec![]), 1 => proptest::collection::vec(any::<u16>(), 1..4)],
         )
             .prop_map(
-                |(rx_buffer, fragments, start_seq, interleave, mutations, chunk)| Case {
+                |(rx_buffer, fragments, start_seq, interleave, mutations, chunk, datagram, interrupts)| Case {
                     rx_buffer,
                     fragments,
                     start_seq,
                     interleave,
                     mutations,
                     chunk,
+                    datagram,
+                    interrupts,
                 },
             )
             .boxed()
@@ -473,6 +576,21 @@ impl Prop for Mutated {
                     k
                 }
                 Mutation::EmptyFrame(_) => continue,
+                Mutation::Broadcast(i, which) => {
+                    let k = idx(*i, n);
+                    segs[k].bcast = Some([0xFFFFu16, 0xFFFE, 0xFFFD][*which as usize % 3]);
+                    out.label("broadcast_segment");
+                    k
+                }
+                Mutation::Peer(i) => {
+                    if !case.datagram {
+                        continue;
+                    }
+                    let k = idx(*i, n);
+                    segs[k].peer ^= 1;
+                    out.label("other_socket_address");
+                    k
+                }
             };
             first_mutated = Some(first_mutated.map_or(at, |f: usize| f.min(at)));
         }
@@ -486,12 +604,12 @@ impl Prop for Mutated {
                 out.label("empty_frame");
             }
         }
-        let exp = expected_fragments(&segs, case.rx_buffer as usize);
+        let exp = expected_fragments_ex(&segs, case.rx_buffer as usize);
         if let Some(f) = first_mutated {
             out.label("mutated");
             // is there a clean fragment that starts after the first mutation point?
             let tail = if f < segs.len() {
-                expected_fragments(&segs[f + 1..], case.rx_buffer as usize)
+                expected_fragments_ex(&segs[f + 1..], case.rx_buffer as usize)
             } else {
                 vec![]
             };
@@ -500,26 +618,62 @@ impl Prop for Mutated {
                 out.nontrivial = true;
             }
         }
-        let mut bytes = vec![];
-        for s in &stream {
+        let frame_of = |s: &Option<Segment>| -> (Vec<u8>, u8) {
             match s {
-                Some(s) => bytes.extend(rl::encode(0xC4, OUTSTATION, s.src, &s.payload())),
-                None => bytes.extend(rl::encode(0xC4, OUTSTATION, MASTER_A, &[])),
+                Some(s) => (
+                    rl::encode(0xC4, s.bcast.unwrap_or(OUTSTATION), s.src, &s.payload()),
+                    s.peer,
+                ),
+                None => (rl::encode(0xC4, OUTSTATION, MASTER_A, &[]), 0),
             }
-        }
-        let chunks: Vec<Vec<u8>> = if case.chunk == 0 {
-            vec![bytes.clone()]
-        } else {
-            bytes
-                .chunks(case.chunk as usize)
-                .map(|c| c.to_vec())
-                .collect()
         };
-        let (got, err) = lib_read(
-            true,
+        let pieces: Vec<Piece> = if case.datagram {
+            out.label("datagram");
+            // whole frames per datagram; several only from one socket address and only if the link read buffer
+            // (292 octets per 249 octets of receive buffer, plus one) holds them
+            let room = ((case.rx_buffer as usize + 248) / 249).max(1) * 292 + 1;
+            let per = 1 + (case.chunk as usize % 3);
+            let mut v: Vec<Piece> = vec![];
+            let mut count = 0usize;
+            for s in &stream {
+                let (b, peer) = frame_of(s);
+                match v.last_mut() {
+                    Some(last) if count < per && last.peer == Some(peer) && last.data.len() + b.len() <= room => {
+                        last.data.extend(b);
+                        count += 1;
+                        out.label("frames_share_a_datagram");
+                    }
+                    _ => {
+                        v.push(Piece { data: b, peer: Some(peer) });
+                        count = 1;
+                    }
+                }
+            }
+            v
+        } else {
+            let mut bytes = vec![];
+            for s in &stream {
+                bytes.extend(frame_of(s).0);
+            }
+            if case.chunk == 0 {
+                vec![Piece { data: bytes, peer: None }]
+            } else {
+                bytes
+                    .chunks(case.chunk as usize)
+                    .map(|c| Piece { data: c.to_vec(), peer: None })
+                    .collect()
+            }
+        };
+        let interrupts: Vec<usize> = case.interrupts.iter().map(|i| idx(*i, pieces.len().max(1))).collect();
+        if !interrupts.is_empty() && pieces.len() > 1 {
+            out.label("read_interrupted");
+        }
+        let (got, err) = lib_read_ex(
+            case.datagram,
             OUTSTATION,
             case.rx_buffer as usize,
-            &chunks,
+            &pieces,
+            &interrupts,
             exp.len() + 16,
         );
         if got != exp {
@@ -530,12 +684,13 @@ impl Prop for Mutated {
             } else {
                 "fragment-differs"
             };
-            let d = |v: &Vec<(u16, Vec<u8>)>| {
+            let d = |v: &Vec<(u16, Option<u16>, Vec<u8>)>| {
                 v.iter()
-                    .map(|(s, b)| {
+                    .map(|(s, bc, b)| {
                         format!(
-                            "src{}:{}B:{:016x}",
+                            "src{}{}:{}B:{:016x}",
                             s,
+                            bc.map(|a| format!("->{a:#x}")).unwrap_or_default(),
                             b.len(),
                             xxhash_rust::xxh64::xxh64(b, 0)
                         )
@@ -559,12 +714,13 @@ fn describe(segs: &[Segment]) -> String {
     segs.iter()
         .map(|s| {
             format!(
-                "{}{}{}#{}@{}:{}",
+                "{}{}{}#{}@{}{}:{}",
                 if s.fir { "F" } else { "-" },
                 if s.fin { "N" } else { "-" },
-                "",
+                if s.bcast.is_some() { "B" } else { "" },
                 s.seq,
                 s.src,
+                if s.peer != 0 { "'" } else { "" },
                 s.data.len()
             )
         })
